@@ -92,8 +92,10 @@ pub fn parse_dxtn<'a>(
         }
 
         let image_bytes = &original_input[offset as usize..(offset + size) as usize];
-        let n = blp_header.mipmap_pixels(i);
-        let blocks_n = ((n as f32) / 16.0).ceil() as usize;
+        // DXT stores 4x4 texel blocks: a level has ceil(w/4) * ceil(h/4) of them
+        // (not ceil(w*h/16), which is smaller for sides that are not multiples of 4)
+        let (level_w, level_h) = blp_header.mipmap_size(i);
+        let blocks_n = (level_w as usize).div_ceil(4) * (level_h as usize).div_ceil(4);
         let mut blocks_size = blocks_n * dxtn.block_size();
         trace!("Dxtn blocks count: {blocks_n}");
         trace!("Dxtn format: {dxtn:?}, block size: {}", dxtn.block_size());
